@@ -169,6 +169,17 @@ func concRequests(r *rng, nss []*namespace.Namespace, motifQ []*ketoapi.Relation
 			}})
 		}
 	}
+	// requests that name namespaces the server does not know (each name new to the server): the not-found path
+	for i := 0; i < 4; i++ {
+		u := egUsers[r.intn(len(egUsers))]
+		q := &ketoapi.RelationTuple{Namespace: fmt.Sprintf("unknown-%d-%d", r.intn(1000000), i), Object: "o", Relation: "r", SubjectID: &u}
+		body, _ := json.Marshal(q)
+		reqs = append(reqs, &concReq{kind: "rest", desc: "conc unknownns " + fmtTuple(q), run: func(e *env) string {
+			code, b := rest(e.read, "POST", "/relation-tuples/check/openapi", body)
+			return fmt.Sprintf("%d %s", code, hx(strings.TrimSpace(string(b))))
+		}})
+		qs = append(qs, q) // so that batches contain unknown namespaces too
+	}
 	// batch checks over subsets (the per-tuple result slots)
 	singles := func(e *env, sub []*ketoapi.RelationTuple) string { // what the entries answer one by one
 		var sb strings.Builder
